@@ -52,3 +52,40 @@ extern "C" void h_b64_decode_any(void)
 	free(t);
 	vp_reach(2);
 }
+
+// ---------------------------------------------------------------- hex
+// p0 = n: encodeHex == lowercase hex and decodeHex(encodeHex(d)) == d
+extern "C" void h_hex_roundtrip(void)
+{
+	int n = vp_param(0);
+	byte d[8];
+	for (int i = 0; i < n; i++) d[i] = nondet_u8();
+	String h = encodeHex(d, n);
+	vp_assert(h.length() == 2 * n, "hex length");
+	static const char HX[] = "0123456789abcdef";
+	for (int i = 0; i < n; i++) {
+		vp_assert((*h)[2 * i] == HX[d[i] >> 4] && (*h)[2 * i + 1] == HX[d[i] & 15], "hex digits lowercase");
+	}
+	vp_assert((*h)[2 * n] == 0, "hex terminated");
+	ByteArray b = decodeHex(h);
+	vp_assert(b.length() == n, "hex decoded length");
+	for (int i = 0; i < n && i < b.length(); i++) { vp_assert(b[i] == d[i], "hex decoded byte"); vp_note(b[i]); }
+	vp_reach(3);
+}
+
+// p0 = text length (odd and even): decodeHex on every text stays in bounds, length >= 0
+extern "C" void h_hex_decode_any(void)
+{
+	int n = vp_param(0), nsym = vp_param(1);   // the last nsym characters are symbolic, the rest is "a5a5..."
+	char t[40];
+	for (int i = 0; i < n; i++) {
+		if (i >= n - nsym) { t[i] = (char)nondet_u8(); vp_assume(t[i] != 0); }
+		else t[i] = (i & 1) ? '5' : 'a';
+	}
+	t[n] = 0;
+	String s(t);
+	ByteArray b = decodeHex(s);
+	vp_assert(b.length() >= 0 && b.length() <= (n + 1) / 2, "decodeHex length in range");
+	vp_note(b.length());
+	vp_reach(4);
+}
